@@ -179,6 +179,12 @@ class Machine:
             if m.group(1) == "AddWithOverflow":
                 return ("tuple", (a + b, z3.Not(z3.BVAddNoOverflow(a, b, False))))
             return ("tuple", (a - b, z3.Not(z3.BVSubNoUnderflow(a, b, False))))
+        m = re.match(r"^Not\((.*)\)$", r)
+        if m:
+            v = self.operand(st, frame, parse_operand(m.group(1)))
+            if z3.is_bool(v):
+                return z3.Not(v)
+            raise Unsupported("Not of %r" % (v,))
         m = re.match(r"^PtrMetadata\((.*)\)$", r)
         if m:
             v = self.operand(st, frame, parse_operand(m.group(1)))
